@@ -254,6 +254,8 @@ esl_msafile_clustal_Read(ESL_MSAFILE *afp, ESL_MSA **ret_msa)
 
       /* Store the sequence name. */
       if (nblocks == 0)	{
+	/* names are kept as C strings: a NUL byte inside the name field would silently truncate the name (to nothing, if it comes first) */
+	if (memchr(p+name_start, '\0', name_len) != NULL) ESL_XFAIL(eslEFORMAT, afp->errmsg, "NUL byte in sequence name");
 	/* make sure we have room for another sequence */
 	if (idx >= msa->sqalloc &&  (status = esl_msa_Expand(msa))           != eslOK) goto ERROR;
 	if ( (status = esl_msa_SetSeqName(msa, idx, p+name_start, name_len)) != eslOK) goto ERROR;
